@@ -209,7 +209,7 @@ func init() {
 	addControl(control{Prop: "C04", Name: "map-field-unpacked-without-validators", Rule: "R04a", Kind: "mutant",
 		File: "reify.go", Old: "return old, reifyMap(opts.opts, old, sub, opts.validators)", New: "return old, reifyMap(opts.opts, old, sub, nil)", Expect: "R04a/ucfg.reifyMergeValue"})
 	addControl(control{Prop: "C04", Name: "absent-pointer-field-not-validated", Rule: "R04a", Kind: "mutant",
-		File: "reify.go", Old: "		if fieldType.Kind() == reflect.Ptr {\n			if err := tryRecursiveValidate(to, opts.opts, opts.validators); err != nil {\n				return raiseValidation(cfg.ctx, cfg.metadata, name, err)\n			}\n			return nil\n		}", New: "		if fieldType.Kind() == reflect.Ptr {\n			return nil\n		}", Expect: "R04a/ucfg.reifyGetField"})
+		File: "reify.go", Old: "		if fieldType.Kind() == reflect.Ptr {\n			if err := tryRecursiveValidate(to, opts.opts, opts.validators); err != nil {\n				return raiseValidation(cfg.ctx, meta, name, err)\n			}\n			return nil\n		}", New: "		if fieldType.Kind() == reflect.Ptr {\n			return nil\n		}", Expect: "R04a/ucfg.reifyGetField"})
 	addControl(control{Prop: "C04", Name: "struct-fields-without-their-tags", Rule: "R04d", Kind: "mutant",
 		File: "reify.go", Old: "				fopts := fieldOptions{opts: fInfo.options, tag: fInfo.tagOptions, validators: fInfo.validatorTags}\n				if err := reifyGetField(", New: "				fopts := fieldOptions{opts: fInfo.options, tag: fInfo.tagOptions, validators: nil}\n				if err := reifyGetField(", Expect: "R04d/ucfg.reifyStruct"})
 	addControl(control{Prop: "C04", Name: "map-empty-config-shortcut", Rule: "R04a", Kind: "mutant",
@@ -953,4 +953,20 @@ func init() {
 	addControl(control{Prop: "C19", Name: "string-renders-through-a-callback-that-only-formats", Rule: "R19h", Kind: "refactor",
 		File: "flag/util.go", Old: "	return toString(v.Config(), v.collector.GetOptions())\n", New: "	return toString(v.Config(), v.collector.GetOptions(), func(err error) string { return err.Error() })\n",
 		More: []edit{{File: "flag/util.go", Old: "func toString(cfg *ucfg.Config, opts []ucfg.Option) string {\n	var tmp map[string]interface{}\n	if err := cfg.Unpack(&tmp, opts...); err != nil {\n		return err.Error()\n	}\n", New: "func toString(cfg *ucfg.Config, opts []ucfg.Option, render func(error) string) string {\n	var tmp map[string]interface{}\n	if err := cfg.Unpack(&tmp, opts...); err != nil {\n		return render(err)\n	}\n"}}})
+}
+
+func init() {
+	addControl(control{Prop: "C14", Name: "list-cast-names-the-parents-source", Rule: "R14g", Kind: "mutant", Quick: true,
+		File: "reify.go", Old: "			ctx := ref.Context()\n			return nil, raisePathErr(ErrMissing, ref.meta(), err.Error(), ctx.path(\".\"))\n", New: "			return nil, raiseMissingMsg(ref.ctx.getParent(), ref.ctx.field, err.Error())\n", Expect: "R14g/ucfg.castArr"})
+	addControl(control{Prop: "C14", Name: "null-reported-with-the-sections-source", Rule: "R14g", Kind: "mutant",
+		File: "reify.go", Old: "		meta := cfg.metadata\n		if value != nil {\n			meta = value.meta()\n		}\n", New: "		meta := cfg.metadata\n", Expect: "R14g/ucfg.reifyGetField"})
+	addControl(control{Prop: "C14", Name: "own-source-chosen-by-a-helper-variable", Rule: "R14g", Kind: "refactor",
+		File: "reify.go", Old: "		meta := cfg.metadata\n		if value != nil {\n			meta = value.meta()\n		}\n", New: "		var meta *Meta\n		if value == nil {\n			meta = cfg.metadata\n		} else {\n			own := value.meta()\n			meta = own\n		}\n"})
+}
+
+func init() {
+	addControl(control{Prop: "C14", Name: "missing-step-named-below-the-start-of-the-walk", Rule: "R14h", Kind: "mutant", Quick: true,
+		File: "path.go", Old: "		if next == nil {\n			return nil, raiseMissingIn(cur, field.String())\n		}\n", New: "		if next == nil {\n			return nil, raiseMissing(cfg, field.String())\n		}\n", Expect: "R14h/(ucfg.cfgPath).GetValue"})
+	addControl(control{Prop: "C14", Name: "missing-step-raised-at-a-named-cursor", Rule: "R14h", Kind: "refactor",
+		File: "path.go", Old: "		if next == nil {\n			return nil, raiseMissingIn(cur, field.String())\n		}\n", New: "		if next == nil {\n			reached := cur\n			return nil, raiseMissingIn(reached, field.String())\n		}\n"})
 }
